@@ -243,6 +243,7 @@ def run(prog, run):
     r6_nomination(prog, run, hd, mk)
     r7_shared(prog, run)
     r8_fresh(prog, run, hd)
+    r9_check_timer(prog, run)
 
 
 def r6_nomination(prog, run, hd, mk):
@@ -338,6 +339,35 @@ def r7_shared(prog, run):
         run.ok(rid, rr.loc(emits[0]), 'each datagram is delivered with its own length')
     else:
         run.violation(rid, 'QXmppUdpTransport::readyRead#datagram-length', rr.loc(emits[0]), why)
+    # the capacity offered to readDatagram is the size of the pending datagram (QUdpSocket silently drops what does not fit)
+    nreads = 0
+    for f in prog.fns.values():
+        if f.entry is None or not f.file.endswith('QXmppStun.cpp'):
+            continue
+        for i, n in f.calls():
+            if not f.cname(n).endswith('::readDatagram') or len(n.get('args', [])) < 2:
+                continue
+            nreads += 1
+            run.instance(rid)
+            cap = n['args'][1]
+            fits = 'pendingDatagramSize' in f.fmt(cap, inline=True)
+            objs = [f.nodes[j].get('decl') for a in n['args'][:2] for j in f.walk(a) if f.nodes[j]['k'] == 'var' and f.nodes[j].get('vk') == 'local']
+            for j, m in f.calls():
+                if f.cname(m).endswith('::resize') and m.get('obj') is not None and f.nodes[f.skip(m['obj'])].get('decl') in objs and m.get('args') \
+                        and 'pendingDatagramSize' in f.fmt(m['args'][0], inline=True) and f.node_dominates(j, i) and f.pos(j) and f.pos(i) and f.pos(j)[0] == f.pos(i)[0]:
+                    fits = True
+            for dcl in objs:
+                d = f.defs().get(dcl)
+                if d and d.get('init') is not None and 'pendingDatagramSize' in f.fmt(d['init'], inline=True) and f.pos(d['node']) and f.pos(i) and f.pos(d['node'])[0] == f.pos(i)[0]:
+                    fits = True
+            if fits:
+                run.ok(rid, f.loc(i), 'the read buffer has the size of the pending datagram')
+            else:
+                run.violation(rid, '%s#datagram-truncated' % f.outer_name(), f.loc(i),
+                              '%s offers readDatagram a capacity (%s) that is not the size of the pending datagram: QUdpSocket discards the rest of a longer datagram, so '
+                              'application data larger than the buffer arrives cut' % (f.display()[:50], f.fmt(cap, inline=False)[:40]))
+    if not nreads:
+        raise AnalysisBroken('C15.R7: no readDatagram call found')
 
 
 def r8_fresh(prog, run, hd):
@@ -381,3 +411,37 @@ def r8_fresh(prog, run, hd):
             run.violation(rid, 'handleDatagram#decode-target-long-lived', f.loc(i),
                           'the datagram is decoded into %s, which outlives the handling of one datagram: attributes stored by decode() for a packet that was then refused '
                           '(no or wrong MESSAGE-INTEGRITY) are still set when the next, authenticated packet is processed' % why)
+
+
+# --------------------------------------------------------------------------- R9: the periodic checks go on until a pair is nominated
+def r9_check_timer(prog, run):
+    rid = run.rule('C15.R9', 'the component\'s periodic check timer is stopped only once a nominated pair exists or when the component is closed: candidates that arrive later '
+                             '(trickled transport-info) are only ever checked by a later tick, so agents that exchanged credentials and candidates would otherwise never connect', floor=2)
+    rec = prog.record('QXmppIceComponentPrivate')
+    timers = [fl for fl in rec['fields'] if (fl.get('t') or '').replace(' ', '') == 'QTimer*']
+    if len(timers) != 1:
+        raise AnalysisBroken('C15.R9: the check timer of QXmppIceComponentPrivate was not identified (%d QTimer members)' % len(timers))
+    tq = timers[0].get('qname') or 'QXmppIceComponentPrivate::' + timers[0]['name']
+    active = [fl.get('qname') or 'QXmppIceComponentPrivate::' + fl['name'] for fl in rec['fields']
+              if 'CandidatePair' in (fl.get('t') or '') and (fl.get('t') or '').rstrip().endswith('*') and '<' not in fl['t']]
+    nstop = 0
+    for f in prog.fns.values():
+        if f.entry is None or not f.file.endswith('QXmppStun.cpp'):
+            continue
+        for i, n in f.calls():
+            if f.cname(n) != 'QTimer::stop' or n.get('obj') is None or f.nodes[f.skip(n['obj'])].get('f') != tq:
+                continue
+            nstop += 1
+            run.instance(rid)
+            nominated = any(p is True and 'nominated' in f.fmt(c, inline=True) for c, p in f.atomic_assertions_at(i))
+            teardown = any(f.nodes[f.skip(a['l'])].get('f') in active and f.nodes[f.skip(a['r'])]['k'] == 'null' for _, a in f.all_nodes('assign'))
+            if nominated:
+                run.ok(rid, f.loc(i), 'stopped behind "pair is nominated"')
+            elif teardown:
+                run.ok(rid, f.loc(i), 'stopped in the teardown (%s forgets the active pair)' % f.name)
+            else:
+                run.violation(rid, '%s#check-timer-stopped-early' % f.outer_name(), f.loc(i),
+                              '%s stops the periodic check timer on a path where no pair has been nominated: remote candidates learnt afterwards are paired but never checked, and '
+                              'connectToHost() does not restart the timer' % f.display()[:50])
+    if nstop < 2:
+        raise AnalysisBroken('C15.R9: stop() sites of the check timer not found')
